@@ -242,6 +242,9 @@ def write_violation(prop, failure, extra=None):
 
 def write_evidence(prop, tier, seed, level, coverage, assumptions, wall, violations):
     d = os.path.join(HERE, "evidence")
+    if os.environ.get("GASOL_REPO") and os.path.realpath(os.environ["GASOL_REPO"]) != "/repo":
+        # sensitivity runs against a scratch copy of the repository must not overwrite the evidence of the real tree
+        d = os.path.join(HERE, "out", "evidence_scratch")
     os.makedirs(d, exist_ok=True)
     ev = {"property_id": prop, "tier": tier, "seed": seed, "level": level, "coverage": coverage,
           "assumptions": assumptions, "wall_s": round(wall, 2), "violations": violations}
